@@ -11,7 +11,7 @@ ID = "C11"
 RULE = (
     "10 simple queries (two with the fake root), 5 more whose filter refers to $ (alone and in 1-operator compounds) and every compound query with 1..3 union/intersection operators over them (8 + 128 + 2048 + 32768/8 "
     "sampled-free: 3-operator queries use the first 5 operands) x every array/object document of Univ(1,3) over leaves "
-    "{2,'a',null} plus 24 nested documents; each evaluated through up to 21 entry points (env and compiled findall, finditer, match, "
+    "{2,'a',null} plus 24 nested documents; each evaluated through up to 23 entry points (env and compiled findall, finditer, match, "
     "query().values(), and the document given as JSON text, StringIO and BytesIO in UTF-8, UTF-8 with BOM, UTF-16 and UTF-32; queries reading the filter context get the caller's mapping through every one of them) and compared with the fold of the simple "
     "results (union = concatenation, intersection = left restricted to values produced by right, left to right). "
     "NEST: every (a op b) op c over 5 simple queries built with the CompoundJSONPath constructor around a compiled compound path "
@@ -22,6 +22,7 @@ RULE = (
     "state = distinct (query, document); non-trivial = non-empty expected result"
 )
 ASSUMPTIONS = [
+    "a file argument is read when the query is applied (the caller may close it before consuming a lazy result)",
     "simple-query results are taken from the compiled simple query itself (its conformance is C01/C02's subject); the fold is the model",
     "intersection restricts to JSON values produced by the right operand: typed equality (true is not 1, 1 == 1.0)",
     "text/file forms only for array and object documents (as the property states)",
@@ -177,6 +178,15 @@ def _entries(text, p, doc, with_forms, fc=None):
             x for x in p.findall(doc, **kw)[1:]]
         yield "env.match(text)", lambda: (lambda m: [] if m is None else [m.obj])(jsonpath.match(text, t, **kw))[:1] + [
             x for x in p.findall(doc, **kw)[1:]]
+        # the file is read when the query is applied: the caller may close it before consuming the lazy result
+        def closed_then_iterate(call):
+            f = io.StringIO(t)
+            it = call(f)
+            f.close()
+            return [m.obj for m in it]
+
+        yield "finditer(StringIO), file closed, then iterated", lambda: closed_then_iterate(lambda f: p.finditer(f, **kw))
+        yield "env.query(StringIO), file closed, then iterated", lambda: closed_then_iterate(lambda f: jsonpath.query(text, f, **kw))
         # a binary file in any encoding json.loads detects (RFC 8259 8.1 / json.detect_encoding)
         for enc in ("utf-8-sig", "utf-16", "utf-16-le", "utf-32"):
             yield "findall(BytesIO %s)" % enc, lambda enc=enc: p.findall(io.BytesIO(t.encode(enc)), **kw)
